@@ -54,6 +54,10 @@ def r5(ctx):
                 if isinstance(c, ast.Call) and repo.call_target(f.module, f, c) == "io.BytesIO":
                     n += 1
                     ctx.fn(f)
+                    # a temporary that is only read from on the spot (`io.BytesIO(data).readlines()`) is nobody's buffer
+                    par = next(iter(f.module.ancestors(c)), None)
+                    if isinstance(par, ast.Attribute) and par.value is c and par.attr in ("read", "readline", "readlines", "getvalue", "getbuffer", "read1", "readinto"):
+                        continue
                     ctx.check("C07.R5", not c.args and not c.keywords, key(f, "prefilled-buffer|" + norm(c)), site(f, c),
                               "`%s` creates a buffer whose position is 0 although it holds data: this layer uses tell() as the number of buffered bytes and appends with write(), "
                               "so the next refill overwrites the buffered bytes" % norm(c), "buffer created empty, filled with write()")
